@@ -32,6 +32,9 @@ pub enum Scene {
 	PausedSound,
 	/// the sound waits for a clock that is never started when the decoder fails
 	WaitingForClock,
+	/// stop() written in the same callback interval as, and after, another playback command (pause / resume / resume_at):
+	/// the sound has been stopped whichever order the audio side reads its command slots in
+	StopAfterOtherCommand,
 }
 
 #[derive(Clone, Copy, Debug, PartialEq)]
@@ -175,7 +178,7 @@ pub fn run_case(c: &CaseSpec, stats: &mut Stats, relax_starved_skip: bool) -> Re
 	let mut _clock_keep = None;
 	let mut handle: Option<StreamingSoundHandle<String>> = None;
 	let play_res: Result<StreamingSoundHandle<String>, PlaySoundError<String>> = match c.scene {
-		Scene::Main | Scene::ManagerDropped | Scene::HandleDropped | Scene::StoppedWithFade | Scene::NaturalEnd | Scene::PausedSound => rig.mgr.play(data),
+		Scene::Main | Scene::ManagerDropped | Scene::HandleDropped | Scene::StoppedWithFade | Scene::NaturalEnd | Scene::PausedSound | Scene::StopAfterOtherCommand => rig.mgr.play(data),
 		Scene::WaitingForClock => {
 			let clock = rig.mgr.add_clock(kira::clock::ClockSpeed::TicksPerSecond(10.0)).map_err(|_| "clock")?;
 			let d = data.start_time(kira::StartTime::ClockTime(kira::clock::ClockTime::from_ticks_u64(clock.id(), 1)));
@@ -269,6 +272,14 @@ pub fn run_case(c: &CaseSpec, stats: &mut Stats, relax_starved_skip: bool) -> Re
 			match c.scene {
 				Scene::StoppedWithFade => h.stop(Tween { duration: Duration::from_millis(5), ..Default::default() }),
 				Scene::PausedSound => h.pause(instant()),
+				Scene::StopAfterOtherCommand => {
+					match (c.len + c.packet) % 3 {
+						0 => h.pause(instant()),
+						1 => h.resume(instant()),
+						_ => h.resume_at(kira::StartTime::Delayed(Duration::from_secs(3600)), instant()),
+					}
+					h.stop(instant());
+				}
 				Scene::TrackDropped => {
 					track = None;
 					why_end = "the sound's track was dropped".into();
@@ -366,6 +377,9 @@ pub fn run_case(c: &CaseSpec, stats: &mut Stats, relax_starved_skip: bool) -> Re
 			if c.scene != Scene::PausedTrack && cb >= e + 2 && stopped_at.is_none() {
 				return Err(format!("decoder error observed at callback {} but the sound is still {:?} two callbacks later", e, state));
 			}
+		}
+		if c.scene == Scene::StopAfterOtherCommand && event_done && cb >= c.event_after + 2 && stopped_at.is_none() {
+			return Err(format!("{} and then stop(), written between the same two callbacks: the sound is {:?} three callbacks later (a sound that was stopped must become Stopped so that its decoder thread ends)", ["pause()", "resume()", "resume_at(in an hour)"][(c.len + c.packet) % 3], state));
 		}
 		if let Some(s) = stopped_at {
 			if cb >= s + 2 {
@@ -509,7 +523,7 @@ fn gen_case(r: &mut Rng, exhaustive_k: Option<(Fault, Scene)>) -> CaseSpec {
 	} else {
 		None
 	};
-	let scene = exhaustive_k.map(|x| x.1).unwrap_or_else(|| *r.pick(&[Scene::Main, Scene::SubTrack, Scene::Rejected, Scene::PausedTrack, Scene::TrackDropped, Scene::ManagerDropped, Scene::HandleDropped, Scene::StoppedWithFade, Scene::NaturalEnd, Scene::PausedSound, Scene::WaitingForClock]));
+	let scene = exhaustive_k.map(|x| x.1).unwrap_or_else(|| *r.pick(&[Scene::Main, Scene::SubTrack, Scene::Rejected, Scene::PausedTrack, Scene::TrackDropped, Scene::ManagerDropped, Scene::HandleDropped, Scene::StoppedWithFade, Scene::NaturalEnd, Scene::PausedSound, Scene::WaitingForClock, Scene::StopAfterOtherCommand]));
 	let fault = exhaustive_k.map(|x| x.0).unwrap_or_else(|| match r.below(4) {
 		0 => Fault::None,
 		1 => Fault::Decode(1 + r.below((len / packet + 2) as u64)),
